@@ -289,3 +289,54 @@ func RunReplay(f func()) (panicked interface{}) {
 
 // DebugErr prints an error (debugging aid; the engine shows opaque error chains).
 func DebugErr(tag string, err error) { fmt.Fprintln(os.Stderr, "DEBUG", tag, err) }
+
+// ---- C07: OS-level event trace ----
+
+// OSEvent is one traced OS / bbolt call of the engine's OS model.
+type OSEvent struct {
+	Op, Path, Note string
+	A, B           uint64
+	OK             bool
+}
+
+// Events returns the trace of OS / bbolt calls made so far (engine only;
+// natively nil: the native counterpart is the strace log, compared by vcheck).
+func Events() []OSEvent { return nil }
+
+// Mark puts a marker into the OS trace. Natively it is a stat of a path under
+// /vrt-marker, which shows up in the strace log.
+func Mark(label string) { os.Stat("/vrt-marker/" + label) }
+
+// TempDir is the WAL directory: "d" in the engine's OS model, a fresh real
+// directory natively.
+func TempDir() string {
+	runtime.LockOSThread() // strace fault injection counts system calls per thread
+	if d := os.Getenv("VRT_TEMPDIR"); d != "" {
+		os.RemoveAll(d)
+		if err := os.MkdirAll(d, 0755); err != nil {
+			panic(err)
+		}
+		return d
+	}
+	d, err := os.MkdirTemp("", "vrt-c07-")
+	if err != nil {
+		panic(err)
+	}
+	return d
+}
+
+// OSFaults sets how many OS calls may still fail on a solver Boolean (engine only).
+func OSFaults(n int) {}
+
+// OSFileLen returns the length of a file in the engine's OS model (^0 if absent).
+func OSFileLen(path string) uint64 { return ^uint64(0) }
+
+// FileInfo is what the engine's ioutil.ReadDir model returns.
+type FileInfo struct{ N string }
+
+func (f FileInfo) Name() string       { return f.N }
+func (f FileInfo) Size() int64        { return 0 }
+func (f FileInfo) Mode() os.FileMode  { return 0644 }
+func (f FileInfo) ModTime() time.Time { return time.Time{} }
+func (f FileInfo) IsDir() bool        { return false }
+func (f FileInfo) Sys() interface{}   { return nil }
